@@ -124,6 +124,22 @@ def rule_last_row_triple(ctx: Ctx) -> RuleResult:
                 rr.inst(f"{norm(t, 60)}", True, {"cell": norm(t, 60), "sources": [sorted(s_) for s_ in srcs]} if len(rr.samples) < 5 else None)
                 if not (srcs[0] == srcs[1] == srcs[2]):
                     rr.add(finding("TRIPLE", fi, node.stmt, f"the cell `{norm(t, 60)}` combines an attribute from {sorted(srcs[0])}, a charset from {sorted(srcs[1])} and text from {sorted(srcs[2])}: part of the bottom row is painted with another cell's attribute / character set", construct=f"mixed cell {norm(t, 60)}"))
+    # the number of backspaces returned is the width of the text written last (Z): after Z is written the cursor
+    # stands behind it and has to return to where Z starts before Y is inserted
+    rets = [n for n in du.cfg.nodes if n.kind == "return" and isinstance(n.ast.value, ast.Tuple) and len(n.ast.value.elts) == 3]
+    apps = nodes_where(du.cfg, lambda x: isinstance(x, ast.Call) and isinstance(x.func, ast.Attribute) and x.func.attr == "append" and x.args and isinstance(x.args[0], ast.Tuple) and len(x.args[0].elts) == 3)
+    for r in rets:
+        last = [a for a in apps if r in du.cfg.reachable([a], avoid=[b for b in apps if b is not a], labels=("n", "T", "F"))]
+        ztexts = set()
+        for a in last:
+            for c in ast.walk(a.ast):
+                if isinstance(c, ast.Call) and isinstance(c.func, ast.Attribute) and c.func.attr == "append" and c.args and isinstance(c.args[0], ast.Tuple) and len(c.args[0].elts) == 3:
+                    ztexts.add(du.text(c.args[0].elts[2], a))
+        back = du.expand(r.ast.value.elts[1], r)
+        rr.inst("back-step = width of the text written last", True, {"back": norm(back, 60), "written_last": sorted(ztexts)})
+        ok = isinstance(back, ast.Call) and callee_name(back) == "calc_width" and len(back.args) == 3 and len(ztexts) == 1 and ast.unparse(back.args[0]) in ztexts and ast.unparse(back.args[1]) == "0" and ast.unparse(back.args[2]) == f"len({ast.unparse(back.args[0])})"
+        if not ok:
+            rr.add(finding("TRIPLE", fi, r.stmt, f"the back-step `{norm(r.ast.value.elts[1], 50)}` is not the width of the text written last ({sorted(ztexts)}): when the bottom-right character and its neighbour differ in width (a CJK character next to a narrow one) the neighbour is inserted one column off", construct="back-step not the width of the shifted text"))
     return rr
 
 
@@ -195,6 +211,19 @@ def rule_repaint(ctx: Ctx) -> RuleResult:
             rr.add(finding("INV", ds, r.stmt, f"`{norm(r.stmt, 40)}` can be reached without passing the loop that writes the output: a draw that was abandoned is remembered as being on the terminal", construct=f"{norm(r.stmt, 40)} before the write loop"))
     if len(rec) < 2:
         rr.add(finding("INV", ds, ds.node, "draw_screen does not record both screen_buf and _screen_buf_canvas", construct="screen buffer not recorded"))
+    # a resize signalled while the canvas content was being walked: the output computed for the old size must not be
+    # written nor remembered - `self._resized` is tested again after the content loop
+    content_loops = [h for h in cfg.nodes if h.kind == "for" and "content" in ast.unparse(h.ast.iter)]
+    tests = [n for n in cfg.nodes if n.kind == "test" and "self._resized" in ast.unparse(n.ast)]
+    rr.inst("resize re-checked after the content walk", True, {"content_loops": len(content_loops), "_resized_tests": len(tests)})
+    if not content_loops:
+        raise AnalysisError("draw_screen: the loop over canvas.content() was not found")
+    for h in content_loops:
+        after = cfg.reachable_from_edges([(h, "F")], avoid=tests)
+        hit = [w for w in writes + rec if w in after]
+        if hit:
+            rr.add(finding("INV", ds, hit[0].stmt, f"`{norm(hit[0].stmt, 40)}` is reached after the walk over canvas.content() without `self._resized` being tested again: a SIGWINCH delivered during the walk lets output computed for the old size be written to the resized terminal and remembered in screen_buf", construct="no _resized test between the content walk and the write"))
+            break
     return rr
 
 
@@ -301,6 +330,9 @@ def run(ctx: Ctx):
 _RW = "urwid/display/_raw_display_base.py"
 _HT = "urwid/display/html_fragment.py"
 MUTANTS = [
+    Mut("back-step-width-of-inserted", _RW, "urwid.display._raw_display_base.Screen._last_row", "return new_row, str_util.calc_width(z_text, 0, len(z_text)), (y_attr, y_cs, y_text)", "return new_row, z_col - y_col, (y_attr, y_cs, y_text)", "TRIPLE|display._raw_display_base.Screen._last_row|back-step"),
+    Mut("twin-back-step-via-local", _RW, "urwid.display._raw_display_base.Screen._last_row", "        return new_row, str_util.calc_width(z_text, 0, len(z_text)), (y_attr, y_cs, y_text)", "        zw = str_util.calc_width(z_text, 0, len(z_text))\n        return new_row, zw, (y_attr, y_cs, y_text)", twin=True),
+    Mut("no-resize-recheck", _RW, "urwid.display._raw_display_base.Screen.draw_screen", "        if self._resized:\n            # handle resize before trying to draw screen\n            return\n        try:", "        try:", "INV|display._raw_display_base.Screen.draw_screen|no _resized test"),
     Mut("insert-block-uses-loop-cs", _RW, "urwid.display._raw_display_base.Screen.draw_screen", "                    if insertcs is None:\n                        icss = escape.SI", "                    if cs is None:\n                        icss = escape.SI", "LEAK|display._raw_display_base.Screen.draw_screen"),
     Mut("insert-block-uses-loop-attr", _RW, "urwid.display._raw_display_base.Screen.draw_screen", "ias = attr_to_escape(inserta)", "ias = attr_to_escape(a)", "LEAK|display._raw_display_base.Screen.draw_screen"),
     Mut("last-row-remainder-wrong-attr", _RW, "urwid.display._raw_display_base.Screen._last_row", "new_row.append((y_attr, y_cs, nlast_text[:nlast_offs]))", "new_row.append((z_attr, z_cs, nlast_text[:nlast_offs]))", "TRIPLE|"),
